@@ -307,7 +307,7 @@ Qed.
 Definition keeps_atoms (kvs kvs' : list (string * json)) : Prop :=
   forall k v, lookup k kvs = Some v -> atom v = true -> lookup k kvs' = Some v.
 
-Lemma graft_obj_keeps : forall path kvs rs n' rest,
+Lemma graft_obj_keeps_atoms : forall path kvs rs n' rest,
   graft path (JObj kvs) rs = Some (n', rest) -> exists kvs', n' = JObj kvs' /\ keeps_atoms kvs kvs'.
 Proof.
   induction path as [|[name|t] restp IHp]; intros kvs rs n' rest Hg.
@@ -342,7 +342,7 @@ Proof.
     try (rewrite graft_atom in Hg by reflexivity; inversion Hg; reflexivity).
   - rewrite graft_arr in Hg. destruct (graft_list (graft path) l rs) as [[l' rs']|]; [|discriminate].
     inversion Hg; eauto.
-  - destruct (graft_obj_keeps _ _ _ _ _ Hg) as [kvs' [-> _]]. eauto.
+  - destruct (graft_obj_keeps_atoms _ _ _ _ _ Hg) as [kvs' [-> _]]. eauto.
 Qed.
 
 Lemma graft_jnull : forall path node rs node' rest,
@@ -507,7 +507,7 @@ Proof.
       destruct (lookup "__typename" l) as [[| | |s| |]|] eqn:El; try reflexivity.
       destruct (String.eqb s t) eqn:Es.
       * rewrite <- IHp. destruct (graft rest (JObj l) rs) as [[n' rs']|] eqn:Eg; [|reflexivity].
-        destruct (graft_obj_keeps _ _ _ _ _ Eg) as [kvs' [-> Hk]].
+        destruct (graft_obj_keeps_atoms _ _ _ _ _ Eg) as [kvs' [-> Hk]].
         unfold on_targets. rewrite targets_type_obj, (Hk _ _ El eq_refl), Es. reflexivity.
       * simpl. rewrite El, Es. reflexivity.
 Qed.
@@ -704,7 +704,7 @@ Proof.
       try (rewrite graft_atom in Hg by reflexivity; inversion Hg; reflexivity).
     + rewrite graft_arr in Hg. destruct (graft_list (graft []) l rs) as [[l' rs']|] eqn:E; [|discriminate].
       inversion Hg; subst. rewrite !skeleton_arr. f_equal. eapply graft_list_skeleton; eauto.
-    + destruct (graft_obj_keeps _ _ _ _ _ Hg) as [kvs' [-> _]]. reflexivity.
+    + destruct (graft_obj_keeps_atoms _ _ _ _ _ Hg) as [kvs' [-> _]]. reflexivity.
   - induction node using json_ind'; intros rs node' rest Hg;
       try (rewrite graft_atom in Hg by reflexivity; inversion Hg; reflexivity).
     + rewrite graft_arr in Hg.
@@ -722,7 +722,7 @@ Proof.
     + rewrite graft_type_obj in Hg.
       destruct (lookup "__typename" l) as [[| | |s| |]|] eqn:El; try discriminate.
       destruct (String.eqb s t) eqn:Es; [|inversion Hg; reflexivity].
-      destruct (graft_obj_keeps _ _ _ _ _ Hg) as [kvs' [-> Hk]].
+      destruct (graft_obj_keeps_atoms _ _ _ _ _ Hg) as [kvs' [-> Hk]].
       rewrite !skeleton_type_obj, El, (Hk _ _ El eq_refl), Es. eapply IHp; eauto.
 Qed.
 
@@ -897,7 +897,7 @@ Proof.
       * destruct (strip_nulls_obj_keeps restp l) as [kvs' [E Hk]].
         rewrite E, graft_type_obj, (Hk _ _ El eq_refl), Es.
         rewrite <- E, IHp. destruct (graft restp (JObj l) rs) as [[n' rs']|] eqn:Eg; [|reflexivity].
-        destruct (graft_obj_keeps _ _ _ _ _ Eg) as [k2 [-> Hk2]].
+        destruct (graft_obj_keeps_atoms _ _ _ _ _ Eg) as [k2 [-> Hk2]].
         unfold strip_res. rewrite strip_nulls_type_obj, (Hk2 _ _ El eq_refl), Es. reflexivity.
       * rewrite graft_type_obj, El, Es. unfold strip_res. rewrite strip_nulls_type_obj, El, Es. reflexivity.
 Qed.
